@@ -256,6 +256,26 @@ XalanTranscodingServices::makeNewTranscoder(
 
 
 
+static bool
+isASCIIName(const XalanDOMChar*     theName)
+{
+    assert(theName != 0);
+
+    while(*theName != 0)
+    {
+        if (*theName < 0x20 || *theName > 0x7E)
+        {
+            return false;
+        }
+
+        ++theName;
+    }
+
+    return true;
+}
+
+
+
 XalanOutputTranscoder*
 XalanTranscodingServices::makeNewTranscoder(
             MemoryManager&      theManager,
@@ -276,6 +296,12 @@ XalanTranscodingServices::makeNewTranscoder(
         theResult = OK;
 
         theTranscoder = XalanUTF16Transcoder::create(theManager);
+    }
+    else if (isASCIIName(theEncodingName) == false)
+    {
+        // Encoding names are ASCII.  Do not hand anything else to the
+        // transcoding service, which may not expect it.
+        theResult = UnsupportedEncoding;
     }
     else
     {
